@@ -303,7 +303,37 @@ def _uniform_bounds(v):
     return aid, law[1], law[2]
 
 
+def _affine_uniform(v):
+    """(atom id, scale, offset) if v = scale*atom + offset for a single Uniform atom (scale != 0), else None"""
+    reg = _CURRENT_ATOMS[0]
+    if reg is None or not isinstance(v, AP) or len(v.t) > 2:
+        return None
+    aid = s = None
+    off = Fraction(0)
+    for m, c in v.t.items():
+        if m == ():
+            off = c
+        elif len(m) == 1 and m[0][1] == 1 and m[0][0][1] == "id" and aid is None:
+            aid, s = m[0][0][0], c
+        else:
+            return None
+    if aid is None:
+        return None
+    law = reg.law.get(aid)
+    if law is None or law[0] != "Uniform":
+        return None
+    return aid, s, off
+
+
 def compare(a, cop, b):
+    if isinstance(a, AP) or isinstance(b, AP):
+        # scale*atom + offset  cop  0   <=>   atom  cop'  -offset/scale
+        pure = isinstance(a, AP) and a.is_pure_atom() is not None and not isinstance(b, AP)
+        au = None if pure else _affine_uniform(v_sub(a, b))
+        if au is not None:
+            aid, sc, off = au
+            flip = {"<": ">", "<=": ">=", ">": "<", ">=": "<=", "==": "==", "/=": "/="}
+            return compare(AP.gen(aid), cop if sc > 0 else flip[cop], -off / sc)
     if isinstance(a, AP) and not isinstance(b, AP):
         ub = _uniform_bounds(a)
         if ub is not None:
